@@ -302,3 +302,5 @@ def run(ctx):
     errdisc.check(ctx, 'C18.RD', 'C18', 36)
     from .. import boundaries as _b
     _b.check_predicates(ctx, 'C18.RP', 'C18')
+    from .. import boundaries as _b
+    _b.check_updates(ctx, 'C18.RU', 'C18')
